@@ -4,26 +4,41 @@ from crosshair.tracers import NoTracing
 import importlib
 CFG = {}
 def prepare(cfg):
-    plan = importlib.import_module('checks.C04').plan('quick', 0)
-    c = [c for c in plan['families'][0]['jobs'] if c['label'] == 'py:lambda-builtin-param'][0]
+    plan = importlib.import_module('checks.C05').plan('quick', 0)
+    c = [c for c in plan['families'][0]['jobs'] if c['label'] == 'a:repeat'][0]
     h.CFG.clear(); h.CFG.update(c); h.prepare(h.CFG)
-def d1(i0: int) -> bool:
+def d1(i0: int, i1: int) -> bool:
     """
-    pre: 0 <= i0 < 1
+    pre: 0 <= i0 < 3 and 0 <= i1 < 5
     post: _
     """
-    b = h.bind((i0, 0, 0, 0, 0, 0), (False,)*6)
-    e = h.run_engine(b)
-    import traceback
-    from vlib import refsem
-    ref = refsem.Ref(h.DEFAULT_MARKER, h.STATE['codes'], helpers={'rec': h.rec})
-    b2 = dict(b); b2.pop('__outs__'); b2.pop('__vals__')
-    try:
-        ref.render(h.CFG['prog'], refsem.RScope(b2), [])
-    except Exception:
-        with NoTracing():
-            print(traceback.format_exc()[-1500:])
-    r = h.run_ref(b)
+    return h.agree(h.bind((i0, i1, 0, 0, 0, 0), (False,)*6))
+
+import traceback, collections, atexit
+from crosshair import statespace as SS
+_orig = SS.StateSpace.choose_possible
+CNT = collections.Counter()
+def _r(self, expr, *a, **k):
     with NoTracing():
-        print('ENG', deep_realize(e)); print('REF', deep_realize(r[:3]))
-    return True
+        st = traceback.extract_stack()[-9:-1]
+        key = str(expr)[:60].replace('\n',' ') + ' @ ' + ' < '.join('%s:%d' % (f.name, f.lineno) for f in reversed(st) )[:300]
+        CNT[key] += 1
+    return _orig(self, expr, *a, **k)
+SS.StateSpace.choose_possible = _r
+import os
+def dump():
+    with open('/tmp/dbg.log','a') as f:
+        for k, v in CNT.most_common(30): f.write('%d  %s\n' % (v, k))
+_oe = os._exit
+def _exit(c):
+    dump(); _oe(c)
+os._exit = _exit
+
+from crosshair import core as CC
+_osc = CC.consider_shortcircuit
+def _csc(fn, sig, bound, subconditions, allow_interpretation):
+    r = _osc(fn, sig, bound, subconditions, allow_interpretation)
+    with NoTracing():
+        CNT['SC %s -> %r' % (getattr(fn, '__qualname__', fn), r)] += 1
+    return r
+CC.consider_shortcircuit = _csc
